@@ -47,9 +47,16 @@ def eq(a, b, rtol=RTOL, atol=ATOL):
         a, b = S.lift_strict(a), S.lift_strict(b)
         if isinstance(a, SC) or isinstance(b, SC):
             a, b = S.as_sc(a), S.as_sc(b)
-            return And(a.re == b.re, a.im == b.im)
-        return a == b
+            return And(_eq_sr(a.re, b.re), _eq_sr(a.im, b.im))
+        return _eq_sr(a, b)
     return Verdict(close(a, b, rtol, atol), f"{a!r} != {b!r}")
+
+
+def _eq_sr(a, b):
+    r = a == b
+    if r is True and not (a.is_const() and b.is_const()):
+        return S.structural_eq(a, b)
+    return r
 
 
 def le(a, b, tol=1e-9):
